@@ -450,12 +450,31 @@ func runC04(c *Ctx) {
 	}
 
 	c.rule("C04-R6", "GOR: every goroutine started in pkg/interpreter or pkg/vm whose body can run user code (reaches executeStatements / EvaluateExpression / VM.executeRaw / VM.Execute / a handler callback) begins with a deferred function that calls recover(); an unrecovered panic in such a goroutine terminates the whole process")
-	for _, rel := range []string{interpPkg, vmPkg} {
+	for _, rel := range []string{interpPkg, vmPkg, serverPkg, glyphCmd} {
 		for _, fn := range c.srcFuncs(rel) {
 			k := 0
 			eachInstr(fn, func(_ *ssa.BasicBlock, _ int, ins ssa.Instruction) {
 				g, ok := ins.(*ssa.Go)
 				if !ok {
+					return
+				}
+				if rel == serverPkg || rel == glyphCmd {
+					// the HTTP layer: a goroutine that invokes a route handler (the rest of the middleware chain and the
+					// route body) runs outside every recover of the dispatcher's goroutine
+					var body *ssa.Function
+					if mc, ok := g.Call.Value.(*ssa.MakeClosure); ok {
+						body = mc.Fn.(*ssa.Function)
+					} else if sf := g.Call.StaticCallee(); sf != nil {
+						body = sf
+					}
+					if body == nil {
+						return
+					}
+					if !reachesInstr(body, func(x ssa.Instruction) bool { return isHandlerValueCall(x, serverPath, "RouteHandler") }, 0, map[*ssa.Function]bool{}) {
+						return
+					}
+					k++
+					c.ob("C04-R6", fnKey(fn)+"#go-"+itoa(k)+"-recovers", g.Pos(), goBodyRecovers(body), "a middleware runs the rest of the chain (and the route body) on a goroutine of its own without a deferred recover: the dispatcher's recover does not cover that goroutine, so a panic in a route body kills the server process instead of being answered with a 500")
 					return
 				}
 				var body *ssa.Function
@@ -1017,4 +1036,21 @@ func stepLimitInRunLoop(c *Ctx, rule string) {
 		c.ob(rule, vmPkg+".VM.runLoop#step-limit-enforced-in-loop", rl.Pos(), ok, "runLoop does not compare its step counter with maxSteps inside the execution loop")
 	}
 
+}
+
+// goBodyRecovers: the function has a deferred closure that calls recover().
+func goBodyRecovers(body *ssa.Function) bool {
+	hasRec := false
+	eachInstr(body, func(_ *ssa.BasicBlock, _ int, x ssa.Instruction) {
+		if d, ok := x.(*ssa.Defer); ok {
+			if mc, ok := d.Call.Value.(*ssa.MakeClosure); ok {
+				eachCall(mc.Fn.(*ssa.Function), func(c2 ssa.CallInstruction) {
+					if callName(c2) == "builtin.recover" {
+						hasRec = true
+					}
+				})
+			}
+		}
+	})
+	return hasRec
 }
